@@ -34,6 +34,9 @@ pub struct ChanSpec {
     pub p_extend: f64,
     /// receiver joins late: the first n datagrams are not seen
     pub skip_first: u32,
+    /// single-byte substitution in the header region (LCT header, extensions, FEC payload id)
+    #[serde(default)]
+    pub p_mutate_header: f64,
 }
 
 impl ChanSpec {
@@ -47,6 +50,7 @@ impl ChanSpec {
             p_truncate: 0.0,
             p_extend: 0.0,
             skip_first: 0,
+            p_mutate_header: 0.0,
         }
     }
 }
@@ -57,6 +61,7 @@ pub struct ChanStats {
     pub duplicated: u32,
     pub reordered: bool,
     pub corrupted: u32,
+    pub header_mutated: u32,
     pub delivered: u32,
 }
 
@@ -209,6 +214,24 @@ pub fn apply(spec: &ChanSpec, ctx: &Ctx, trace: &SenderTrace, label: &str) -> (V
                 if v > 0 {
                     bytes.extend(std::iter::repeat(0xA5u8).take(v as usize));
                     st.corrupted += 1;
+                }
+            }
+        }
+        if spec.p_mutate_header > 0.0 {
+            let hdr = p.dec.payload_off.min(bytes.len());
+            let v = ctx.borrow_mut().fault_val(
+                &format!("mutate-header/{}", label),
+                spec.p_mutate_header,
+                hdr as u64 * 256,
+            );
+            if v > 0 && hdr > 0 {
+                let x = (v - 1) as usize;
+                let pos = (x / 256) % hdr;
+                let val = (x % 256) as u8;
+                if bytes[pos] != val {
+                    bytes[pos] = val;
+                    st.corrupted += 1;
+                    st.header_mutated += 1;
                 }
             }
         }
